@@ -173,7 +173,7 @@ def why_date(di, m, yi, hi, mi):
 # ------------------------------------------------------------------ C20
 
 DAYEXPR = ["tomorrow", "on friday", "friday", "next monday", "12.03.2021", "march 3rd", "on the 15th", "morgen", "freitag", "3. april 2022",
-           "yesterday", "saturday next week"]
+           "yesterday", "saturday next week", "today", "30.04.2021", "heute"]
 CLOCKS = [("7 a.m.", 7, 0), ("8pm", 20, 0), ("8:30", 8, 30), ("20:15", 20, 15), ("9 uhr", 9, 0), ("half past 7", 7, 30), ("11:59 pm", 23, 59), ("0:05", 0, 5), ("12:30 pm", 12, 30)]
 CONN = ["", "at ", "um "]
 NDE, NCL = len(DAYEXPR), len(CLOCKS)
